@@ -83,6 +83,11 @@ def gen_repcode_input(rng: random.Random, max_distance: int = 4, max_cycles: int
     inp["cycles"] = rng.randint(lo, max_cycles)
     if rng.random() < 0.15:
         inp["reuse_description"] = True
+    r = rng.random()
+    if r < 0.15:
+        inp["state_container"] = "shuffled"
+    elif r < 0.25 and mode != "initial_state":
+        inp["state_container"] = "partial"      # (the distance of an initial-state description is the number of named qubits)
     if composite_p and mode == "connectivity" and rng.random() < composite_p:
         inp["composite"] = gen_composite(rng, inp)
     return inp
@@ -93,7 +98,17 @@ def initial_state_of(inp: Dict[str, Any]):
     enum = {0: InitialStateEnum.ZERO, 1: InitialStateEnum.ONE}
     data = [enum[b] for b in inp["data_state"]]
     anc = [enum[b] for b in inp["ancilla_state"]] if inp.get("ancilla_state") is not None else None
-    return InitialStateContainer.from_ordered_list(data, anc)
+    how = inp.get("state_container", "ordered")
+    if how == "ordered":
+        return InitialStateContainer.from_ordered_list(data, anc)
+    # the same request written as dictionaries: filled in another insertion order ("shuffled": descending), or only the
+    # non-default entries ("partial": a qubit that is not named is prepared in the default state ZERO)
+    items = list(enumerate(data))[::-1]
+    anc_items = list(enumerate(anc or []))[::-1]
+    if how == "partial":
+        items = [(k, v) for k, v in items if v != InitialStateEnum.ZERO]
+        anc_items = [(k, v) for k, v in anc_items if v != InitialStateEnum.ZERO]
+    return InitialStateContainer(initial_states=dict(items), ancilla_initial_states=dict(anc_items))
 
 
 def description_of(inp: Dict[str, Any]):
@@ -116,6 +131,7 @@ def description_of(inp: Dict[str, Any]):
         # the same chain described by a composite description with exclusions (a description the constructors accept as well)
         from qce_circuit.library.repetition_code.circuit_components import CompositeRepetitionCodeDescription
         from qce_circuit.connectivity.intrf_channel_identifier import EdgeIDObj
+        inp["_base_description_object"] = base      # kept for checks that use the base again after the composite was evaluated
         return CompositeRepetitionCodeDescription(
             _base_description=base,
             _qubit_index_map={QubitIDObj(q): i for i, q in enumerate(inp["involved"])},
